@@ -313,10 +313,11 @@ func init() {
 				Fixes: []string{"o0=2,o1=1,op0=0,op1=1", "o0=2,o1=1,op0=0,op1=4"}}},
 			// a failed routine is replaced inside its backoff window, then the interval passes
 			[]Job{{H: "H_C14_Machine2B", K: 80, U: 3, Prune: true, Preempt: 2, TimeoutSec: 1200, Fixes: []string{"o0=2,o1=1,op0=6,op1=5"}}},
-			[]Job{{H: "H_C14_Machine2B", K: 80, U: 3, Prune: true, Preempt: 2, TimeoutSec: 1200, Fixes: []string{"o0=2,o1=2,op0=6,op1=5"}}},
 		),
 		Thorough: cat(
 			split(Job{H: "H_C14_Machine2B", K: 80, U: 3, Prune: true, Preempt: 2, Fixes: c14Cases(true), TimeoutSec: 6000}, 12),
+			// the replacement fails too and is retried when the interval passes (392 s of solving)
+			[]Job{{H: "H_C14_Machine2B", K: 80, U: 3, Prune: true, Preempt: 2, TimeoutSec: 3000, Fixes: []string{"o0=2,o1=2,op0=6,op1=5"}}},
 		),
 		Bounds:  "transition table of the restart machine: the first instance succeeds / fails / runs until cancelled, with and without a retry backoff, then ONE operation out of {SetRoutine(new routine), RestartRoutine, SetContext(same,restart), SetContext(same), SetContext(other), ClearContext, backoff interval passes} (36 case splits; outcomes of the instances started by the operation are symbolic); thorough: the same after a preceding ClearContext (2 operations). The driver waits for quiescence between operations; reference state machine in the harness (run count, exit-callback count and error, WaitExited result, return values); schedules with at most 2 preemptions; K=60-80",
 		Outside: "operations issued while an instance is between 'returned' and 'recorded' (C05 covers overlapping calls), histories longer than 2 operations, backoff durations",
